@@ -247,6 +247,10 @@ func obElem(b []byte, res *Result, fails *[]string, where string) {
 	tx, rest, err := decodeElem(b)
 	res.Tags = append(res.Tags, fmt.Sprintf("%s.class%d", where, errClass(err)))
 	if err != nil {
+		var one types.Transaction
+		if rlp.DecodeBytes(b, &one) == nil {
+			*fails = append(*fails, where+": rlp.DecodeBytes accepts what Stream.Decode rejects")
+		}
 		res.Obs = L(append(AsList(res.Obs), L(I(errClass(err))))...)
 		return
 	}
@@ -266,7 +270,37 @@ func obElem(b []byte, res *Result, fails *[]string, where string) {
 		want = c
 	}
 	if want != nil {
+		// a list element is a legacy tx; a string element is type||payload with a supported type <= 0x7f
+		if len(want) == len(consumed) {
+			if tx.Type() != types.LegacyTxType {
+				*fails = append(*fails, fmt.Sprintf("%s: list element decoded as type %d", where, tx.Type()))
+			}
+		} else if len(want) == 0 || want[0] > 0x7f || want[0] < types.AccessListTxType || want[0] > types.SetCodeTxType || tx.Type() != want[0] {
+			first := -1
+			if len(want) > 0 {
+				first = int(want[0])
+			}
+			*fails = append(*fails, fmt.Sprintf("%s: string element accepted whose payload starts with %#x (not a supported type byte) as type %d", where, first, tx.Type()))
+		}
 		checkTx(tx, want, where, fails)
+	}
+	// rlp.DecodeBytes(x, &tx): exactly one element; accept => byte-identical re-encoding
+	var one types.Transaction
+	if derr := rlp.DecodeBytes(b, &one); derr == nil {
+		if rest != 0 {
+			*fails = append(*fails, where+": rlp.DecodeBytes accepts input with trailing bytes")
+		}
+		if e1, err := rlp.EncodeToBytes(&one); err != nil || !bytes.Equal(e1, b) {
+			*fails = append(*fails, where+": rlp.DecodeBytes accepted an element that re-encodes differently")
+		}
+		if one.Hash() != tx.Hash() {
+			*fails = append(*fails, where+": rlp.DecodeBytes and Stream.Decode give different transactions")
+		}
+		if m1, err := one.MarshalBinary(); err != nil || one.Size() != uint64(len(m1)) {
+			*fails = append(*fails, fmt.Sprintf("%s: size-mismatch after rlp.DecodeBytes: Size()=%d, envelope %d", where, one.Size(), len(m1)))
+		}
+	} else if rest == 0 {
+		*fails = append(*fails, where+": Stream.Decode accepts the whole input but rlp.DecodeBytes rejects it: "+derr.Error())
 	}
 	fresh, _, _ := decodeElem(b)
 	e2, e2err := rlp.EncodeToBytes(fresh)
@@ -521,7 +555,7 @@ func main() {
 			"empty/large access lists, 0-3 blob hashes, authorization lists, sidecars v0/v1/(2) with zero blobs, mismatched counts and a few real 131072-byte blobs, " +
 			"valid-signature 'JSON eligible' txs) run through NewTx: MarshalBinary, EncodeRLP, Hash, Size, then decoded again; adversarial stream: " +
 			"binary and list-element encodings mutated (type byte, truncation, trailing bytes, non-canonical integers/sizes, wrong arity, wrong kinds, " +
-			"field size off by one, wrapper/sidecar tampering, byte flips, random bytes). Non-trivial: every structured case; raw inputs of >= 2 bytes.",
+			"field size off by one, wrapper/sidecar tampering, string elements wrapping a legacy list / a nested element / empty / single bytes, byte flips, random bytes). Non-trivial: every structured case; raw inputs of >= 2 bytes.",
 		Gen: gen,
 		Run: run,
 	})
